@@ -129,7 +129,7 @@ class Prop:
                            'unregister_peer, drop_stale_families, mark_llgr_stale, drop_llgr_stale_families, update_nexthop_validity, '
                            'soft_reset_in, insert_route under a prefix limit, start_deferral_families, end_deferral_families) with a capturing kernel::KernelHandle (harness/daemon/table_manager_hx.rs verif_fib_cases)')
     rule = ('a case is a history of <= 28 operations; non-trivial when some FIB request carries >= 2 next hops or a withdrawal follows an '
-            'install; distinct = distinct (configuration, canonical request stream); on every run 494 enumerated histories (tie-key steps, flag combinations, '
+            'install; distinct = distinct (configuration, canonical request stream); on every run 926 enumerated histories (Add-Path partial purges, tie-key steps, flag combinations, '
             'nht_register matrix, remove / peer-operation / soft-reset / reachability / VRF classes, prefix-limit boundaries, deferral) and every '
             'register/unregister sequence of length <= 4 precede the random ones; the thorough tier adds every sequence of <= 3 operations '
             'over a 20-letter alphabet (incl. deferral start/end, a limited insert, an IPv6 prefix) after a two-insert prefix and 495 kernel reference-count sequences')
@@ -370,6 +370,26 @@ class Prop:
             Q = (P[0], P[1] + 10)
             add('vrf:two_rds:k%d' % P[0], [ins(1, P, 1, 10), ins(2, Q, 2, 10), rem(2, Q), rem(1, P)])
             add('vrf:two_rds_one_importable:k%d' % P[0], [ins(1, P, 1, 10), ins(2, Q, 2, 19), rem(2, Q)])
+        # A: an Add-Path peer holds 2-3 path ids on one prefix (sharing / not sharing a next hop); the new session
+        # refreshes a subset (same or another next hop) and a purge takes the rest: the registrations must follow
+        # exactly the removed paths, the FIB the remaining ones
+        for P in ((0, 1), (1, 2)):
+            for npid in (2, 3):
+                for shname, nhs in (('shared', (1, 1, 1)), ('distinct', (1, 2, 3)), ('mixed', (1, 1, 2))):
+                    for mask in range(1 << npid):
+                        keep = [pid for pid in range(npid) if mask >> pid & 1]
+                        ktag = 'k%d:%dpids:%s:kept_%s' % (P[0], npid, shname, ''.join(map(str, keep)) or 'none')
+                        first = [ins(1, P, nhs[pid], 10, pid) for pid in range(npid)] + [ins(2, P, 3, 22)]
+                        for rname, rnh in (('same_nh', lambda pid: nhs[pid]), ('new_nh', lambda pid: 2 if nhs[pid] != 2 else 1)):
+                            refresh = [ins(1, P, rnh(pid), 10, pid, 1) for pid in keep]
+                            tail = [rem(1, P, pid, 1) for pid in keep] + [rem(2, P)]
+                            add('partial_purge:dstale:%s:%s' % (ktag, rname), first + [('mstale', 1)] + refresh + [('dstale', 1)] + tail)
+                            add('partial_purge:dllgr:%s:%s' % (ktag, rname), first + [('mstale', 1), ('mllgr', 1)] + refresh + [('dllgr', 1)] + tail)
+                            if rname == 'same_nh':
+                                add('partial_purge:drop:%s' % ktag, first + [('mstale', 1)] + refresh + [('drop', 1), rem(2, P)])
+                        add('partial_purge:mllgr:%s' % ktag,
+                            [ins(1, P, nhs[pid], 10 if pid in keep else 18, pid) for pid in range(npid)] + [ins(2, P, 3, 22), ('mllgr', 1)] +
+                            [rem(1, P, pid) for pid in keep] + [rem(2, P)])
         # L: the prefix-limit test of Table::insert in the FIB stream: counter below / at / above the limit
         # (also at the u32 end), for a new prefix / a replacement / another Add-Path id / another peer's path present
         insl = lambda peer, p, a, tok, mx, cnt, pid=0: ('insl', peer, 0, p, pid, nh(a), tok, mx, cnt)
